@@ -55,6 +55,25 @@ PAIRS = {
                                  cmap(("k", a), ("l", cseq(b, None, cmap(("p", c)))), ("e", cseq()), ("f", cmap()))),
              "a document against an equal copy (nulls, empty containers)"),
 }
+
+
+def _styles():
+    """Scalars as the round-trip loader types them: the same datum written in different styles has different classes."""
+    from ruamel.yaml.scalarstring import SingleQuotedScalarString, DoubleQuotedScalarString
+    from ruamel.yaml.scalarint import HexInt
+    return ["a", SingleQuotedScalarString("a"), "b", 80, HexInt(80), DoubleQuotedScalarString("b")]
+
+
+def _styled(a, b, c, d):
+    from crosshair import realize
+    k = realize(a)            # one combined selector: independent selectors multiply the explored paths
+    a, b, c = k % 6, (k // 6) % 6, k // 36
+    p, q = _styles(), _styles()
+    return cmap(("l", cseq(p[a], p[b]))), cmap(("l", cseq(q[c], q[b])))
+
+
+PAIRS["styled"] = (_styled, "{l: [x, y]} vs {l: [u, y']} over the pool [a, 'a', b, 80, 0x50, \"b\"] (equal data in different "
+                            "scalar styles = different ruamel classes)")
 ARRAY_MODES = ["position", "value"]
 AOH_MODES = ["position", "dpos", "value", "key", "deep"]
 
@@ -221,7 +240,7 @@ def accounting(amode: int, a: int, b: int, c: int, d: int, e: int) -> bool:
 def shards(tier, seed):
     out = []
     leaves = "-2 <= a <= 2 and -2 <= b <= 2 and -2 <= c <= 2 and -2 <= d <= 2"
-    names = list(PAIRS) if tier == "thorough" else ["edit", "keys", "nulls", "null_tail", "shrink", "root_shrink", "clash",
+    names = [n for n in PAIRS if n != "styled"] if tier == "thorough" else ["edit", "keys", "nulls", "null_tail", "shrink", "root_shrink", "clash",
                                                     "reorder", "aoh", "aoh_ids", "aoh_same", "same"]
     for name in names:
         is_aoh = name.startswith("aoh")
@@ -237,6 +256,10 @@ def shards(tier, seed):
                              family="diff/%s" % name, budget=900,
                              desc="%s; arrays=%s aoh=%s" % (PAIRS[name][1], ARRAY_MODES[am], AOH_MODES[om]),
                              bounds={"a..d": "[-2,2] (all equal/unequal patterns of 4 leaves)"}))
+    for am in (0, 1):
+        out.append(shard(PID, "diff/styled/%s" % ARRAY_MODES[am], "harness.c06", "diff_ok('styled', %d, 0, k, 0, 0, 0)" % am,
+                         [("k", "int")], ["0 <= k < 216"], family="diff/styled", budget=1200,
+                         kind="S", desc=PAIRS["styled"][1] + "; arrays=" + ARRAY_MODES[am]))
     for am in (0, 1):
         out.append(shard(PID, "reuse/%s" % ARRAY_MODES[am], "harness.c06", "reuse(%d, a, b, c, d)" % am,
                          [("a", "int"), ("b", "int"), ("c", "int"), ("d", "int")], [leaves], family="reuse", budget=900,
